@@ -3,6 +3,7 @@ C08 — concurrent shells lose nothing.  Protocol P-evict (M.Conc): the eviction
 any number of concurrent holders of the poll's waker, every interleaving, sequentially consistent memory.
 -/
 import CruxVerif.Lemmas.Conc
+import CruxVerif.Lemmas.Slot
 namespace Props.C08
 open M.Conc
 
@@ -51,5 +52,67 @@ theorem evict_still_evicts : (run (Evict.init true [false, false]) [1, 2, 0, 0])
 /-! Not proved: linearizability of whole concurrent calls on one Core (every outcome of concurrent process_event / resolve /
     view calls equals the outcome of some sequential order), and the slot protocol of QueuingExecutor. The `race` cases of the
     correspondence check the former on real threads against both sequential orders computed by M.Hosts. -/
+
+/-! ## Protocol P-slot (M.Slot): the task slots of `QueuingExecutor` under concurrent `Core::resolve` calls -/
+
+/-- in every reachable state — ANY number of threads and tasks, ANY interleaving of the micro-steps —
+    (1) a thread between taking a future out of its slot and putting it back is the only holder of that slot (no future is
+        polled by two threads; the `expect("Task slot is missing")` of `run_task` cannot fire);
+    (2) NO LOST WAKE-UP: an id sent for a task still in the slab is in the ready channel or in the hand of a thread that will
+        re-send it or take the slot, until a slot-take that happens AFTER the wake serves it;
+    (3) NO LOST RESPONSE: a task all of whose requests have been resolved is gone, or a wake-up for it is still to be sent
+        or served, or the poll that sees all results is about to run / has just completed it. -/
+theorem slot_invariant (cfg : M.Slot.Cfg) (hcfg : cfg.Ok) (n : Nat) (sched : List Nat) :
+    M.Slot.Inv cfg (M.Slot.run cfg sched (M.Slot.init n)) :=
+  M.Slot.inv_run cfg hcfg sched _ (M.Slot.inv_init cfg n)
+
+/-- QUIESCENCE: once every thread has returned from its call, the ready channel is empty, no slot is left empty-but-owned,
+    every wake-up sent has been served by a later poll (or its task has completed), and EVERY task all of whose requests
+    were resolved has run to completion — whatever the interleaving was. -/
+theorem slot_quiescent (cfg : M.Slot.Cfg) (hcfg : cfg.Ok) (n : Nat) (sched : List Nat)
+    (hdone : ∀ r, (M.Slot.run cfg sched (M.Slot.init n)).pc r = .done) :
+    let s := M.Slot.run cfg sched (M.Slot.init n)
+    s.queue = [] ∧ (∀ t r, s.slot t ≠ .taken r) ∧ (∀ t, s.pend t = true → s.slot t = .removed) ∧
+    (∀ t, cfg.needs t ≠ [] → (∀ q ∈ cfg.needs t, s.resolved q = true) → s.slot t = .removed) := by
+  intro s
+  have hi : M.Slot.Inv cfg s := slot_invariant cfg hcfg n sched
+  have hq : s.queue = [] := by
+    rcases hqe : s.queue with _ | ⟨a, l⟩
+    · rfl
+    · obtain ⟨r, hr⟩ := hi.live (by rw [hqe]; simp)
+      rw [hdone r] at hr; simp [M.Slot.active] at hr
+  have hw : ∀ t, s.pend t = true → s.slot t = .removed := by
+    intro t hp
+    rcases hi.wake t hp with h | h | ⟨r, h⟩
+    · exact h
+    · rw [hq] at h; cases h
+    · rw [hdone r] at h; simp [M.Slot.holdsId] at h
+  refine ⟨hq, ?_, hw, ?_⟩
+  · intro t r ht
+    have := hi.back t r ht
+    rw [hdone r] at this; simp [M.Slot.pollingPc] at this
+  · intro t hn hall
+    rcases hsl : s.slot t with _ | r0 | _
+    · have hne : s.slot t ≠ .removed := by rw [hsl]; simp
+      rcases hi.resp t hn hne hall with h | ⟨r, h⟩ | ⟨r, h⟩ | ⟨r, h⟩
+      · have := hw t h; rw [hsl] at this; cases this
+      · rw [hdone r] at h; simp [M.Slot.atWake] at h
+      · rw [hdone r] at h; simp [M.Slot.atTaken] at h
+      · rw [hdone r] at h; simp [M.Slot.atDoneTrue] at h
+    · have := hi.back t r0 hsl
+      rw [hdone r0] at this; simp [M.Slot.pollingPc] at this
+    · rfl
+
+/-- non-vacuity: two threads resolving the two requests one task joins; under this interleaving the second thread finds
+    the slot empty (`Unavailable`), re-queues, and the task still completes; all threads return -/
+def slotCfg : M.Slot.Cfg := { needs := fun t => if t = 0 then [0, 1] else [], owner := fun _ => 0, target := fun r => r }
+example : slotCfg.Ok := by
+  intro t q h
+  by_cases ht : t = 0
+  · subst ht; rfl
+  · simp [slotCfg, ht] at h
+example :
+    let s := M.Slot.run slotCfg [0, 0, 0, 0, 1, 1, 1, 1, 1, 0, 0, 1, 1, 1, 0, 0] (M.Slot.init 2)
+    (s.pc 0 = .done ∧ s.pc 1 = .done) ∧ s.slot 0 = .removed ∧ s.polls 0 = 1 := by decide
 
 end Props.C08
